@@ -12,15 +12,19 @@ EXHAUSTIVE = {"quick": False, "thorough": True}
 ASSUMPTIONS = ["matched-conversation theorem holds up to explicit collision / freshness events (Bad)"]
 
 
-def routing(ctx, sample):
+def routing(ctx, sample, shape=0):
     ctx.nontrivial = True
     L, rnd = ctx.L, ctx.rnd
     r = ctx.call("setup_new", ctx.tape(2 * L.Nsk + L.Nh + 16))
     setup = r.b(0)
-    users = {"u1": (b"pw-one", b"cred-1"), "u2": (b"pw-two", b"cred-2"), "u3": (b"pw-one", b"cred-3")}
+    # long credential identifiers with a long common prefix (truncation or prefix-only hashing would merge them)
+    C1, C2, C3 = (b"credential-identifier/" * 5 + b"-%d" % k for k in (1, 2, 3))
+    users = {"u1": (b"pw-one", C1), "u2": (b"pw-two", C2), "u3": (b"pw-one", C3)}
+    # identity shape used consistently by every party of this run: {absent, explicit}^2
+    IDU, IDS = [(None, None), (b"client-id", None), (None, b"server-id"), (b"client-id", b"server-id")][shape % 4]
     records = {}   # name -> (file, pw, cred)
     for name, (pw, cred) in list(users.items()) + [("u1-again", users["u1"])]:
-        f = honest_flow(ctx, pw, cred, None, None, None, setup=setup, registration_only=True)
+        f = honest_flow(ctx, pw, cred, None, IDU, IDS, setup=setup, registration_only=True)
         records[name] = (f.file, pw, cred)
     records["none"] = (None, None, None)
     clients = {}   # name -> (state, request, pw)
@@ -28,16 +32,16 @@ def routing(ctx, sample):
         r = ctx.call("login_start", ctx.btape(L.Nsk + 64), pw)
         clients[name] = (r.b(0), r.b(1), pw)
     ctx.counting = True
-    creds = [b"cred-1", b"cred-2", b"cred-3"]
+    creds = [C1, C2, C3]
     sessions = list(itertools.product(sorted(clients), sorted(records), creds))
     if sample:
-        must = [("c1", "u1", b"cred-1"), ("c2", "u2", b"cred-2"), ("c4", "u3", b"cred-3"), ("c1", "u1-again", b"cred-1"),
-                ("c1", "u3", b"cred-3"), ("c3-wrong", "u1", b"cred-1"), ("c1", "none", b"cred-1"), ("c1", "u1", b"cred-3")]
+        must = [("c1", "u1", C1), ("c2", "u2", C2), ("c4", "u3", C3), ("c1", "u1-again", C1),
+                ("c1", "u3", C3), ("c3-wrong", "u1", C1), ("c1", "none", C1), ("c1", "u1", C3)]
         rest = [s for s in sessions if s not in must]
         sessions = must + rnd.sample(rest, sample)
     srv = {}
     for (c, rec, cred) in sessions:
-        r = ctx.call("srv_login_start", ctx.tape(L.Nh + 64 + L.Nsk + 16), setup, records[rec][0], clients[c][1], cred, None, None, None)
+        r = ctx.call("srv_login_start", ctx.tape(L.Nh + 64 + L.Nsk + 16), setup, records[rec][0], clients[c][1], cred, None, IDU, IDS)
         if ctx.expect(r.ok, "server session starts"):
             srv[(c, rec, cred)] = (r.b(0), r.b(1))
     # every response to every pending client
@@ -46,7 +50,7 @@ def routing(ctx, sample):
     for c in sorted(clients):
         st, _, pw = clients[c]
         for sid in sorted(srv, key=repr):
-            r = ctx.call("login_finish", st, pw, srv[sid][1], None, None, None, "~")
+            r = ctx.call("login_finish", st, pw, srv[sid][1], None, IDU, IDS, "~")
             (c2, rec, cred) = sid
             matched = (c2 == c) and records[rec][0] is not None and records[rec][1] == pw and records[rec][2] == cred
             ctx.expect(r.ok == matched, "client %s on the response of session %s: accepted=%s, matched conversation=%s (%s)"
@@ -66,17 +70,17 @@ def routing(ctx, sample):
     ctx.expect(len(set(keys)) == len(keys), "distinct completed sessions have distinct session keys")
     ctx.expect(len(keys) >= 4, "several sessions completed (non-vacuous)")
     # replay of an old finalization / response into a *new* session of the same user
-    g = honest_flow(ctx, b"pw-one", b"cred-1", None, None, None, setup=setup, registration_only=True)  # unrelated new record
+    g = honest_flow(ctx, b"pw-one", C1, None, IDU, IDS, setup=setup, registration_only=True)  # unrelated new record
     for (c, sid), (ke3, key) in list(sorted(fins.items(), key=repr))[:3]:
         r = ctx.call("login_start", ctx.btape(L.Nsk + 64), clients[c][2])
         st2, req2 = r.b(0), r.b(1)
-        r = ctx.call("login_finish", st2, clients[c][2], srv[sid][1], None, None, None, "~")
+        r = ctx.call("login_finish", st2, clients[c][2], srv[sid][1], None, IDU, IDS, "~")
         ctx.expect(not r.ok, "a response replayed into a later client session is rejected")
-        r = ctx.call("srv_login_start", ctx.tape(L.Nh + 64 + L.Nsk + 16), setup, records[sid[1]][0], req2, sid[2], None, None, None)
+        r = ctx.call("srv_login_start", ctx.tape(L.Nh + 64 + L.Nsk + 16), setup, records[sid[1]][0], req2, sid[2], None, IDU, IDS)
         r2 = ctx.call("srv_login_finish", r.b(0), ke3)
         ctx.expect(not r2.ok, "a finalization replayed into a later server session is rejected")
 
 
 def cases(tier, seed):
-    return [dict(script=routing, suite=s, seed=seed * 1000 + i, mode="pattern", params=dict(sample=(0 if tier == "thorough" else 10)))
-            for i, s in enumerate(suites_for(tier, seed))]
+    return [dict(cross=["login_finish", "srv_login_finish", "srv_reg_start"], cross_limit=60, script=routing, suite=s, seed=seed * 1000 + i, mode="pattern", params=dict(sample=(0 if tier == "thorough" else 10), shape=i + seed + k))
+            for i, s in enumerate(suites_for(tier, seed)) for k in (range(4) if tier == "thorough" else range(1))]
